@@ -23,6 +23,7 @@ import os
 import re
 import shutil
 import tempfile
+import time
 
 import common
 import svcorpus
@@ -55,6 +56,9 @@ def prepare_all(specs, backend, nrand, ncyc, seed_tag, cross=False, workers=None
     ctx = mp.get_context("fork")
     with ctx.Pool(workers, maxtasksperchild=1) as pool:
         return pool.map(_prep, args, chunksize=1)
+
+
+WORK = [0]      # interpreter work done by validate() so far: sum of (AST nodes x events executed), see _weight
 
 
 def _weight(t):
@@ -104,8 +108,15 @@ def validate(traces, timeout=3000, coverage=False):
                 if p[1] - 1 in vs:
                     raise MachineryError("two verdicts for one trace")
                 vs[p[1] - 1] = (p[2], p[3])
-            elif p[0] in ("T", "R"):
-                extra.setdefault(p[1] - 1, {})[p[0]] = p[2:]
+            elif p[0] == "R":
+                extra.setdefault(p[1] - 1, {})["R"] = p[2:]
+            elif p[0] == "T":
+                # <<"T", tid, k, ncmp, nflat, chunk of the differing entries>>: one line per chunk
+                d = extra.setdefault(p[1] - 1, {})
+                if "T" in d:
+                    d["T"] = d["T"][:3] + (tuple(sorted(set(d["T"][3]) | set(p[5]))),)
+                else:
+                    d["T"] = tuple(p[2:5]) + (tuple(p[5]),)
         for j in range(len(idx)):
             if j not in vs:
                 raise MachineryError("no verdict for trace %s\n%s" % (traces[idx[j]].get("tag"), r.out[-3000:]))
@@ -123,6 +134,10 @@ def validate(traces, timeout=3000, coverage=False):
                     infos[i] = extra.get(j, {})
     finally:
         shutil.rmtree(tmp, ignore_errors=True)
+    for t, v in zip(traces, verdicts):
+        if v is not None:
+            steps = len(t["ev"]) if (v[0] == "ok" or v[0].startswith("mismatch")) and not t["d"].get("stop") else min(len(t["ev"]), max(1, v[1]))
+            WORK[0] += 40 + steps * max(1, t.get("w", 1))
     return runs, list(zip(verdicts, infos))
 
 
@@ -190,6 +205,8 @@ def _gen_shape(meta, where):
         c = shape_class(sig)
         if c:
             return c
+        if meta.get("nowidth"):
+            return "%s:%s" % (fam, sig)
         return "%s:%s:w%s" % (fam, sig, wm.group(1) if wm else "?")
     base, _, rest = _shape_key(meta).partition(":")
     return "%s:%s:%s%s" % (fam, base, port, ":" + rest if rest else "")
@@ -221,7 +238,9 @@ def run_batch(res, backend, specs, nrand, ncyc, seed_tag, label, cross=False, un
     uns=True: every operand of the emitted text is taken as unsigned from the start (the signedness rules
     of 6.24.1 / 11.8 are then not applied at all; see STRICT_SIGNED_CAST in props/c12.py)."""
     B = Batch(backend, label)
+    t0 = time.time()
     preps = B.preps = prepare_all(specs, backend, nrand, ncyc, seed_tag, cross=cross)
+    res.note("wall_%s_translate_and_simulate_s" % label, round(time.time() - t0, 1))
     bad = [p for p in preps if p["status"] in ("unsupported", "machinery", "unresolvable") or
            (p["status"] == "unbuildable" and p["spec"][0] != "repo")]
     if bad:
@@ -269,9 +288,20 @@ def run_batch(res, backend, specs, nrand, ncyc, seed_tag, label, cross=False, un
             t["owner"] = pi
             if uns and t["mode"] == "run":
                 t["d"] = dict(t["d"], uns=True)
+            elif t["mode"] == "run" and has_signed(t["d"]):
+                # validated a second time with every operand unsigned if it fails: that run collects all mismatches
+                t["d"] = dict(t["d"], stop=True)
             B.traces.append(t)
     traces = B.traces
+    if label == "gen":
+        wf = {}
+        for t in traces:
+            fam = (preps[t["owner"]].get("meta") or {}).get("family", "?")
+            wf[fam] = wf.get(fam, 0) + _weight(t)
+        res.note("interpreter_work_units_by_family", wf)
+    t0 = time.time()
     runs, vi = validate(traces)
+    res.note("wall_%s_tlc_s" % label, round(time.time() - t0, 1))
     B.vi = vi
     for r in runs:
         res.add_tlc(r)
@@ -282,9 +312,11 @@ def run_batch(res, backend, specs, nrand, ncyc, seed_tag, label, cross=False, un
         rt = []
         for i in retry:
             t = dict(traces[i])
-            t["d"] = dict(t["d"], uns=True)
+            t["d"] = dict(t["d"], uns=True, stop=False)
             rt.append(t)
+        t0 = time.time()
         runs2, vi2 = validate(rt)
+        res.note("wall_%s_tlc_unsigned_rerun_s" % label, round(time.time() - t0, 1))
         for r in runs2:
             res.add_tlc(r)
         for i, (v, info) in zip(retry, vi2):
@@ -342,6 +374,11 @@ def run_batch(res, backend, specs, nrand, ncyc, seed_tag, label, cross=False, un
             # it fails with the signedness ignored as well: that failure names the (other) defect
             (err, pos), tinfo = lv[0], lv[1].get("T", (0, 0, 0))
             eff = err
+        m_oor = re.match(r"(.*out-of-range-write):(.*)$", err)
+        if m_oor:
+            # a write through an index outside the declared range: the clause names the variable
+            err = m_oor.group(1)
+            eff = err if eff != "signed-loopvar" else eff
         B.clauses[eff] = B.clauses.get(eff, 0) + 1
         ks = list(tinfo[3]) if len(tinfo) > 3 and tinfo[3] else ([tinfo[0]] if tinfo[0] else [])
         wheres = []
@@ -352,6 +389,8 @@ def run_batch(res, backend, specs, nrand, ncyc, seed_tag, label, cross=False, un
             elif err.startswith("port-map"):
                 e = t["ev"][pos - 1]["in" if "input" in err else "outc"][k - 1]
                 wheres.append(e["n"])
+        if m_oor:
+            wheres = [m_oor.group(2)]
         where = wheres[0] if wheres else ""
         if is_cross:
             # the SystemVerilog text on the vectors of the yosys check: C03's business, recorded only
@@ -390,8 +429,8 @@ def run_batch(res, backend, specs, nrand, ncyc, seed_tag, label, cross=False, un
             if key in seen_keys:
                 continue
             seen_keys.add(key)
-            res.violation(key, "%s back end, design %s (%s): %s at cycle %d %s"
-                          % (backend, name, t["tag"], err, pos, where), detail)
+            res.violation(key, "%s back end, design %s (%s): %s %s (first failure of the run: %s at cycle %d)"
+                          % (backend, name, t["tag"], cls, where, err, pos), dict(detail, port=where))
     for (owner, name, err, pos, where) in vec_fail:
         if owner in failed_design:
             res.count("%s_hand_vector_sets_failing_like_the_pymtl_trace" % label)
@@ -592,7 +631,10 @@ def canaries(res, batches, R, n=12, portmap=False):
                 raise MachineryError("no %s canary could be built (no accepted trace with such a port)" % kd)
     if not can:
         raise MachineryError("no canary could be built")
+    t0 = time.time()
     runs, cv = validate(can)
+    res.note("wall_canaries_tlc_s", round(time.time() - t0, 1))
+    res.note("interpreter_work_units", WORK[0])
     rejected = {}
     for kd, (v, info) in zip(kinds, cv):
         if v[0] == "ok":
